@@ -29,6 +29,7 @@ type ProgOpts struct {
 	StuckXor bool // allow exclusive gateways with no default and possibly no true condition
 	ActivityDefault bool // allow default flows on activities
 	DataConds bool // conditions may read boolean results written by tasks that certainly ran before (also by other tokens: sub-process content, joined parallel branches)
+	Fuse          bool // a join followed directly by a fork of the same kind may be drawn as one gateway that joins and forks at once
 	EmptyBranches bool // parallel and inclusive blocks may have branches without any activity (a flow straight from the fork to the join)
 	SubInLoop bool // allow sub-processes inside loops (always on since the re-entry repair; the tag is kept as a reach probe)
 	ForkInOr bool // allow forking blocks inside inclusive branches (known-finding trigger)
@@ -54,7 +55,19 @@ type progGen struct {
 	wrapped int
 	written map[string]bool
 	dataConds int
+	hint  string   // (Fuse) the kind of the join the previous sibling block ended in: the next block may start with a fork of that kind
 	avail []string // boolean result variables that are certainly written before the current point (and not by a concurrent branch)
+}
+
+// setHint notes, when joins and forks may be fused, that the block drawn last ended in a join gateway.
+func (pg *progGen) setHint(g *Graph, last string) {
+	pg.hint = ""
+	if !pg.opts.Fuse {
+		return
+	}
+	if n := g.Node(last); n != nil && len(n.In) >= 2 && (n.Kind == "xor" || n.Kind == "and" || n.Kind == "or") {
+		pg.hint = n.Kind
+	}
 }
 
 func (pg *progGen) newTask(g *Graph) *Node {
@@ -168,6 +181,14 @@ func (pg *progGen) blockInner(g *Graph, from string, cond *Cond, outPos int, dep
 		kinds = append(kinds, pg.opts.Kinds...)
 	}
 	kind := kinds[pg.d.N(len(kinds))]
+	if h := pg.hint; h != "" {
+		pg.hint = ""
+		for _, k := range kinds {
+			if k == h && pg.d.Bool() {
+				kind = h
+			}
+		}
+	}
 	if kind == "sub" && pg.inLoop > 0 {
 		if !pg.opts.SubInLoop {
 			kind = "task"
@@ -201,6 +222,7 @@ func (pg *progGen) blockInner(g *Graph, from string, cond *Cond, outPos int, dep
 		pg.desc.WriteString("seq( ")
 		cur, first := pg.block(g, from, cond, outPos, depth+1)
 		for i := 1; i < n; i++ {
+			pg.setHint(g, cur)
 			cur, _ = pg.block(g, cur, nil, -1, depth+1)
 		}
 		pg.desc.WriteString(") ")
@@ -473,10 +495,15 @@ func GenProgram(d *Draw, opts ProgOpts) *Program {
 	n := 1 + d.N(2)
 	cur := st.ID
 	for i := 0; i < n; i++ {
+		pg.setHint(g, cur)
 		cur, _ = pg.block(g, cur, nil, -1, 0)
 	}
 	e := g.addNode(&Node{ID: "End", Kind: "end"})
 	g.connect(defs, cur, e.ID, nil, -1)
+	if opts.Fuse && fuseGateways(g, d) {
+		pg.tags["fused-gateway"] = true
+		pg.desc.WriteString(" [join+fork fused]")
+	}
 	g.index()
 	var tags []string
 	for t := range pg.tags {
@@ -484,6 +511,65 @@ func GenProgram(d *Draw, opts ProgOpts) *Program {
 	}
 	sort.Strings(tags)
 	return &Program{Defs: defs, Vars: pg.vars, Desc: strings.TrimSpace(pg.desc.String()), Tags: tags, Wrapped: pg.wrapped, DataConds: pg.dataConds}
+}
+
+// fuseGateways merges a gateway J that only joins (several incoming flows, one unconditional outgoing flow) with the
+// gateway F of the same kind that only forks and follows it directly: J's incoming flows are led into F, which then
+// joins and forks at once. BPMN gives both drawings the same meaning. (Applied to the graph and, recursively, to the
+// graphs of its sub-processes; every candidate is fused with probability one half.)
+func fuseGateways(g *Graph, d *Draw) bool {
+	fused := false
+	for _, n := range g.Nodes {
+		if n.Sub != nil && fuseGateways(n.Sub, d) {
+			fused = true
+		}
+	}
+	skip := map[*Node]bool{}
+	for {
+		g.index()
+		var pick *Flow
+		for _, f := range g.Flows {
+			j, t := g.Node(f.From), g.Node(f.To)
+			if j == nil || t == nil || j == t || j.Kind != t.Kind || f.Cond != nil || skip[j] {
+				continue
+			}
+			if j.Kind != "xor" && j.Kind != "and" && j.Kind != "or" {
+				continue
+			}
+			if len(j.Out) != 1 || len(j.In) < 2 || len(t.In) != 1 || len(t.Out) < 2 || j.Default != "" {
+				continue
+			}
+			pick = f
+			break
+		}
+		if pick == nil {
+			return fused
+		}
+		j, t := g.Node(pick.From), g.Node(pick.To)
+		if !d.Bool() {
+			skip[j] = true // this pair stays as drawn
+			continue
+		}
+		for _, fid := range j.In {
+			g.Flow(fid).To = t.ID
+		}
+		t.In = append([]string{}, j.In...)
+		var nodes []*Node
+		for _, n := range g.Nodes {
+			if n != j {
+				nodes = append(nodes, n)
+			}
+		}
+		g.Nodes = nodes
+		var flows []*Flow
+		for _, fl := range g.Flows {
+			if fl != pick {
+				flows = append(flows, fl)
+			}
+		}
+		g.Flows = flows
+		fused = true
+	}
 }
 
 // GenBody draws a block-structured body into graph g (which shares defs, so ids are unique across the
